@@ -55,9 +55,45 @@ def run(rep, tier):
     rep.encoded("crates/s3s/src/sig_v2/authorization_v2.rs", "AuthorizationV2::parse (Kani)")
     rep.encoded("crates/s3s/src/sig_v2/methods.rs", "create_string_to_sign, calculate_signature (family only)")
     sigprops.check_paths(rep, "v2", "C11 paths")
+    string_to_sign(rep, tier)
     kspec.run_spec(rep, "C11", tier, budget_s=200)
     sigprops.run_family(rep, "C11", family(), label="sigv2 family")
-    rep.assume("SHA-1 / HMAC are uninterpreted in the solver queries; the V2 string-to-sign builder is exercised by the reference-signed "
-               "family, not decided symbolically")
-    rep.out("symbolic equivalence of sig_v2::create_string_to_sign with the specification; virtual-hosted-style V2 requests; "
-            "sub-resources AWS added after the V2 freeze")
+    rep.assume("SHA-1 / HMAC / base64 are uninterpreted in the solver queries (validated by the reference-signed family with real crypto)")
+    rep.assume("precise mode: contracts of OrderedHeaders / OrderedQs (get_unique = the value of the only pair with that name, get_all = the values "
+               "of that name in order, names ascending) are decided by their own Kani harnesses; str::trim is an uninterpreted function")
+    rep.out("sub-resources AWS added after the V2 freeze; requests that repeat a single-valued header (Date, x-amz-date, Content-MD5, "
+            "Content-Type) or a query name: the specification does not say what to sign")
+
+
+def family_deviates(rep):
+    """native confirmation of a string-to-sign counterexample: some reference-signed request of the family is judged wrongly"""
+    from vlib import replay
+    fam = family()
+    outs = replay.run_scenarios([{"config": sigprops.CFG, "request": c[2]} for c in fam])
+    rep.traces_validated += len(fam)
+    return any(sigprops.outcome(o)["accepted"] != c[3].get("accept") for c, o in zip(fam, outs))
+
+
+def string_to_sign(rep, tier):
+    """rsx precise mode on sig_v2::create_string_to_sign (props/sigbuild.py)"""
+    import time
+    import sigbuild
+    t0 = time.time()
+    try:
+        problems, n = sigbuild.check_v2_string_to_sign(rep, tier)
+    except (sigbuild.rsx.Unsupported, sigbuild.rsx.PathBudget, sigbuild.Inconclusive) as e:
+        rep.fail_inconclusive("V2 string to sign: %s" % e)
+        return
+    shapes = ("header mode: (query pairs, headers) in {(2,0), (1,1), (0,3)} path style, (1,1) virtual-hosted; presigned mode: (1,1) path style, "
+              "(2,0), (0,2) virtual-hosted") if tier == "quick" else "both modes x both styles x (query pairs, headers) in {(2,0), (2,1), (1,2), (0,3), (0,4)}"
+    rep.bound("V2 string to sign: %s; names and values symbolic strings; query names pairwise distinct; single-valued headers at most once" % shapes)
+    if problems:
+        for k, what in sorted(problems.items()):
+            conf = family_deviates(rep)
+            res = rep.violation(k, what, rep.save_cex("v2_string_to_sign", {"what": what}), confirmed=conf)
+        rep.obligation("V2 string to sign", "rsx+z3(precise)", res, time.time() - t0)
+    else:
+        rep.obligation("sig_v2::create_string_to_sign equals the SigV2 specification's StringToSign piece by piece on all %d paths (verb, Content-MD5, "
+                       "Content-Type, Date / Expires with the x-amz-date rule, CanonicalizedAmzHeaders with repeated names joined and values trimmed, "
+                       "CanonicalizedResource with bucket prefix and the sorted sub-resource list of 22 names)" % n, "rsx+z3(precise)", "holds",
+                       time.time() - t0, states=n)
